@@ -485,7 +485,6 @@ pub fn run(a: &Args) {
             // A STORE that was acknowledged and is still invisible after 10 s is C01/C03's subject.
             s.tally(if sess.dead || dead { "infra:session-lost" } else { "infra:stored-event-not-visible-after-10s" });
             s.case("skip", "skip", false);
-            s.oracle_ok();
             if sess.dead {
                 sess = Session::start(&root, &cfg);
             }
